@@ -162,7 +162,7 @@ func (o *Oblig) Solve(dir string, tier string, seed int) {
 		sec = 60
 	}
 	if wantSat {
-		sec = 5
+		sec = 3
 	}
 	var results []solveResult
 	if tier == "thorough" && !wantSat {
